@@ -319,6 +319,26 @@ impl SparqlTranslator {
         // We extract triples from the pattern and create delete operations
         let triples = Self::extract_triples_from_pattern(pattern);
 
+        // With several patterns the match must be evaluated once, before anything is deleted
+        // (a union of deletes would match the later patterns against the already modified data).
+        if triples.len() > 1 {
+            let mut delete_templates = Vec::new();
+            for triple in &triples {
+                delete_templates.push(TripleTemplate {
+                    subject: self.translate_triple_term(&triple.subject)?,
+                    predicate: self.translate_property_path(&triple.predicate)?,
+                    object: self.translate_triple_term(&triple.object)?,
+                    graph: None,
+                });
+            }
+            return Ok(LogicalPlan::new(LogicalOperator::Modify(ModifyOp {
+                delete_templates,
+                insert_templates: Vec::new(),
+                where_clause: Box::new(match_plan),
+                graph: None,
+            })));
+        }
+
         // Build delete operators with the match plan as input
         let mut ops = Vec::new();
         for triple in &triples {
